@@ -155,7 +155,19 @@ def x_explorer_gate():
     eb = gallina(parse_expr(b.group(2)), "Z.quot", {b.group(1): "n"})
     if ea != eb:
         raise Broken("the node module linked by explorer-backend (%s) computes quorum as %s, the tree as %s" % (linked_from, a.group(2), b.group(2)))
+    # ... and which VerifySignatures?  model/Vaa.v transcribes the tree's; the explorer runs the linked copy
+    def _verify_text(path_or_src, is_path):
+        try:
+            src2 = open(path_or_src).read() if is_path else path_or_src
+        except OSError as e:
+            raise Broken("cannot read the structs.go the explorer links: %s" % e)
+        m = re.search(r'func \(v \*VAA\) VerifySignatures\(addresses \[\]common\.Address\) bool \{.*?\n\}\n', src2, re.S)
+        if not m:
+            raise Broken("VerifySignatures not found (linked copy or tree)")
+        return re.sub(r'\s+', ' ', re.sub(r'//[^\n]*', '', m.group(0))).strip()
+    if _verify_text(os.path.join(os.path.dirname(os.path.dirname(p)), "vaa", "structs.go"), True) != _verify_text(rd("node/pkg/vaa/structs.go"), False):
+        raise Broken("the node module linked by explorer-backend (%s) has a VerifySignatures that differs from the tree's (which model/Vaa.v transcribes)" % linked_from)
     out = ("(* main.go: capacity of the persistence queue *)\nDefinition explorer_queue_cap : nat := %s%%nat.\n" % q.group(1))
-    return out, {"queue_cap": int(q.group(1)), "linked_node_module": linked_from, "linked_quorum_expr": a.group(2)}
+    return out, {"queue_cap": int(q.group(1)), "linked_node_module": linked_from, "linked_quorum_expr": a.group(2), "linked_VerifySignatures": "same text as node/pkg/vaa/structs.go"}
 
 EXTRACTORS = [("explorer_store", x_explorer_store), ("explorer_gate", x_explorer_gate)]
